@@ -146,7 +146,15 @@ def check_wrap(cx, chk):
                 if st != body_st:
                     probs.append(("state", "the wrapper's result resumes from %s, not from the state the body ended in" % mir.show(st)[:100]))
                 if "string" in r.flags:
-                    continue        # value is the consumed slice (C09.pair)
+                    # `@string` ignores field declarations: the value is the consumed slice, measured from the entry state to the
+                    # state the body ended in (the measurement itself is C09.pair's subject)
+                    sv = val
+                    if val[0] == "agg" and "string" in [n_ for (n_, _) in val[3]]:
+                        sv = dict(val[3])["string"]
+                    meas = [s_ for s_ in walk(sv) if s_[0] == "call" and last(s_[1]) == "slice_until" and "ParseState" in s_[1]]
+                    if not meas or tuple(meas[0][2]) != (mir.mk("param", 1), body_st):
+                        probs.append(("string-value", "a @string rule does not return the slice it consumed (entry state .. end of body): %s" % mir.show(sv)[:160]))
+                    continue
                 if names == ["_override"]:
                     if val != body_res:
                         probs.append(("override-remapped", "an override rule does not return the overridden value itself: %s" % mir.show(val)[:200]))
